@@ -476,8 +476,15 @@ def judge(cases: list[dict], results: list[dict], verd: fx.Verdicts) -> dict:
             if name in obs:
                 k = f"{case['kind']}:{name}:{obs[name]}"
                 stats['classes'][k] = stats['classes'].get(k, 0) + 1
-        if r['bad']:
-            for key, clause, detail in r['bad']:
+        # a missed (but sound) simplification is not a violation of C13 ("reduced to the identity ONLY IF ..."):
+        # it is recorded as information; C07 is the property about patterns being rewritten
+        real_bad = [b for b in r['bad'] if not b[1].endswith('_missed')]
+        for b in r['bad']:
+            if b[1].endswith('_missed'):
+                stats.setdefault('missed_simplifications', {})
+                stats['missed_simplifications'][b[1]] = stats['missed_simplifications'].get(b[1], 0) + 1
+        if real_bad:
+            for key, clause, detail in real_bad:
                 (leaky if clause == 'rejection' and case.get('div') else other).append((key, clause, case, detail))
         else:
             stats['accepted'] += 1
